@@ -35,7 +35,8 @@ theorem erase_dpush (t : DItem) (st : DSt) : eraseSt (dpush t st) = push (Conver
   | nil => simp [dpush, push, eraseSt, eraseL_append, Convert.eraseL]
   | cons f fs => simp [dpush, push, eraseSt, eraseF, eraseL_append, Convert.eraseL]
 
-theorem erase_dpushOpt (t : Option QData) (st : DSt) : eraseSt (dpushOpt t st) = pushOpt t (eraseSt st) := by
+theorem erase_dpushOpt (t : Option QData) (hp : Pay) (st : DSt) :
+    eraseSt (dpushOpt t hp st) = pushOpt t (eraseSt st) := by
   cases t with
   | none => rfl
   | some d => simp [dpushOpt, pushOpt, erase_dpush, Convert.erase]
@@ -48,8 +49,8 @@ theorem dstep_erase (st : DSt) (n : Nat) (p : Pay) (k : RowK) :
   | q d other => simp [dstep, step, Except.map, erase_dpushOpt, erase_dpush, Convert.erase]
   | begin_ ct name bind helper =>
     simp only [dstep, step]
-    have h := erase_dpushOpt helper st
-    generalize dpushOpt helper st = st1 at h
+    have h := erase_dpushOpt helper (helperPay p) st
+    generalize dpushOpt helper (helperPay p) st = st1 at h
     obtain ⟨r1, f1⟩ := st1
     rw [← h]
     simp [Except.map, eraseSt, eraseF, Convert.eraseL]
@@ -108,13 +109,10 @@ theorem decorate_classify (lists : List Str) (n : Nat) (r : Cells) (k : RowK) (p
       · rename_i k' hk
         split at h
         · simp at h
-        · simp at h
         · split at h
-          · simp at h
-          · split at h
-            · simp at h; rw [hk, h.1]
-            · simp at h
           · simp at h; rw [hk, h.1]
+          · simp at h
+        · simp at h; rw [hk, h.1]
 
 theorem decorateAll_classifyAll (lists : List Str) : ∀ (rows : List Cells) (n : Nat) (ds : List ((Nat × RowK) × Pay)),
     decorateAll lists n rows = .ok ds → classifyAll lists n rows = .ok (ds.map (·.1))
@@ -147,7 +145,7 @@ structure Trace (wb : Workbook) (doc : Node) (f : Fields) (lists : List (Str × 
   hbinds : bindsOkL (elsOf f.name (dWithMeta f.name rows ditems)) [(f.name, .group)] (dWithMeta f.name rows ditems) = true
   hctl : ctlOkL ditems = true
   hdoc : doc = assemble f none (instNodes (defaultsOfL [f.name] ditems) [f.name] (ntKids o.inst))
-    ((Choices.staticInsts [] lists).map Choices.instNode ++
+    ((Choices.staticInsts [] (othersApplied rows lists)).map Choices.instNode ++
       bindNodesL (elsOf f.name (dWithMeta f.name rows ditems)) [(f.name, .group)] (dWithMeta f.name rows ditems))
     (bodyNodesL (elsOf f.name (dWithMeta f.name rows ditems)) [f.name] ditems)
   hvalid : validDoc [] doc = true
@@ -263,11 +261,40 @@ theorem isDom_choiceInst (i : Choices.Inst) : isDom (Choices.instNode i) = true 
 theorem isDom_bindNode (els : List Refs.Chain) (ctx : Refs.Chain) (q : Binds.Q) :
     isDom (bindNode els ctx q) = true := isDom_pyNode _ _ _ isDomKids_nil
 
+theorem isDom_dynSetOf (els : List Refs.Chain) (ctx : Refs.Chain) (r : Cells) (b : Bool) :
+    isDomKids (dynSetOf els ctx r b) = true := by
+  unfold dynSetOf
+  split
+  · split
+    · exact isDomKids_single (isDom_pyNode _ _ _ isDomKids_nil)
+    · exact isDomKids_nil
+  · exact isDomKids_nil
+
+mutual
+theorem isDom_dynSets (els : List Refs.Chain) : ∀ (pre : List Str) (d : DItem), isDomKids (dynSets els pre d) = true
+  | pre, .q d p => by unfold dynSets; exact isDom_dynSetOf ..
+  | pre, .sec .rep n b p ks => by unfold dynSets; exact isDomKids_nil
+  | pre, .sec .group n b p ks => by unfold dynSets; exact isDom_dynSetsL els (pre ++ [n]) ks
+  | pre, .sec .loop n b p ks => by unfold dynSets; exact isDom_dynSetsL els (pre ++ [n]) ks
+theorem isDom_dynSetsL (els : List Refs.Chain) : ∀ (pre : List Str) (ds : List DItem),
+    isDomKids (dynSetsL els pre ds) = true
+  | _, [] => by unfold dynSetsL; exact isDomKids_nil
+  | pre, k :: ks => by
+    unfold dynSetsL
+    rw [isDomKids_append, isDom_dynSets els pre k, isDom_dynSetsL els pre ks]; rfl
+end
+
 mutual
 theorem isDom_bindNodes (els : List Refs.Chain) : ∀ (pc : Refs.Chain) (d : DItem),
     isDomKids (bindNodes els pc d) = true
   | pc, .q d p => by
     unfold bindNodes
+    rw [isDomKids_append]
+    have h2 : isDomKids (if inRep pc = true then [] else dynSetOf els (pc ++ [(d.name, .q)]) p.cells false) = true := by
+      split
+      · exact isDomKids_nil
+      · exact isDom_dynSetOf ..
+    rw [h2, Bool.and_true]
     split
     · exact isDomKids_single (isDom_bindNode ..)
     · exact isDomKids_nil
@@ -363,7 +390,8 @@ theorem isDom_bodyNodes (els : List Refs.Chain) : ∀ (pre : List Str) (d : DIte
   | pre, .sec .rep n b p ks => by
     unfold bodyNodes
     exact isDomKids_single (isDom_pyNode _ _ _ (isDomKids_cons (isDom_labelNode ..)
-      (isDomKids_single (isDom_pyNode _ _ _ (isDom_bodyNodesL els (pre ++ [n]) ks)))))
+      (isDomKids_single (isDom_pyNode _ _ _
+        (by rw [isDomKids_append, isDom_bodyNodesL els (pre ++ [n]) ks, isDom_dynSetsL els (pre ++ [n]) ks]; rfl)))))
   | pre, .sec .group n b p ks => by
     unfold bodyNodes
     refine isDomKids_single (isDom_pyNode _ _ _ ?_)
@@ -388,7 +416,7 @@ end
 
 theorem trace_partsDom {wb doc f lists rows drows o ditems} (_T : Trace wb doc f lists rows drows o ditems) :
     PartsDom none (instNodes (defaultsOfL [f.name] ditems) [f.name] (ntKids o.inst))
-      ((Choices.staticInsts [] lists).map Choices.instNode ++
+      ((Choices.staticInsts [] (othersApplied rows lists)).map Choices.instNode ++
         bindNodesL (elsOf f.name (dWithMeta f.name rows ditems)) [(f.name, .group)] (dWithMeta f.name rows ditems))
       (bodyNodesL (elsOf f.name (dWithMeta f.name rows ditems)) [f.name] ditems) :=
   ⟨fun ks h => (by cases h), isDom_instNodes _ _ _,
@@ -769,7 +797,16 @@ theorem bindNodes_refs (els : List Refs.Chain) : ∀ (pc : Refs.Chain) (d : DIte
     (bindNodes els pc d).filterMap bindRef = (bindPaths pc.path (Convert.erase d)).map xpathStr
   | pc, .q d p, h => by
     simp only [bindsOk, Bool.or_eq_true, Bool.not_eq_true'] at h
-    simp only [bindNodes, Convert.erase, bindPaths]
+    have hdyn : (if inRep pc = true then [] else dynSetOf els (pc ++ [(d.name, .q)]) p.cells false).filterMap bindRef = [] := by
+      split
+      · rfl
+      · unfold dynSetOf
+        split
+        · split
+          · simp only [setvalueNode, pyNode, List.filterMap_cons, bindRef]; rw [if_neg (by decide)]; rfl
+          · rfl
+        · rfl
+    simp only [bindNodes, Convert.erase, bindPaths, List.filterMap_append, hdyn, List.append_nil]
     cases hb : d.bind with
     | false => simp
     | true =>
@@ -933,6 +970,35 @@ theorem last_attrs (v : Str) (a : List (Str × Str)) (h : cleanAttrs a = true) :
     have : attrLocal (l!"ref") != attrLocal (l!"nodeset") := by decide
     simp only [List.all_cons, List.all_nil, this]; rfl
 
+theorem cleanAttrs_subAttrs (els : List Refs.Chain) (ctx : Refs.Chain) (a : List (Str × Str)) :
+    cleanAttrs (Convert.subAttrs els ctx a) = cleanAttrs a := by
+  unfold cleanAttrs Convert.subAttrs
+  rw [List.all_map]; rfl
+
+theorem ctlRefsL_dynSetOf (els : List Refs.Chain) (ctx : Refs.Chain) (r : Cells) (b : Bool) :
+    ctlRefsL (dynSetOf els ctx r b) = [] := by
+  unfold dynSetOf
+  split
+  · split
+    · simp only [setvalueNode, pyNode, ctlRefsL_single]
+      rw [ctlRefs_nonctl _ _ _ (by decide)]; rfl
+    · rfl
+  · rfl
+
+mutual
+theorem ctlRefsL_dynSets (els : List Refs.Chain) : ∀ (pre : List Str) (d : DItem), ctlRefsL (dynSets els pre d) = []
+  | pre, .q d p => by unfold dynSets; exact ctlRefsL_dynSetOf ..
+  | pre, .sec .rep n b p ks => by unfold dynSets; rfl
+  | pre, .sec .group n b p ks => by unfold dynSets; exact ctlRefsL_dynSetsL els (pre ++ [n]) ks
+  | pre, .sec .loop n b p ks => by unfold dynSets; exact ctlRefsL_dynSetsL els (pre ++ [n]) ks
+theorem ctlRefsL_dynSetsL (els : List Refs.Chain) : ∀ (pre : List Str) (ds : List DItem),
+    ctlRefsL (dynSetsL els pre ds) = []
+  | _, [] => by unfold dynSetsL; rfl
+  | pre, k :: ks => by
+    unfold dynSetsL
+    rw [ctlRefsL_append, ctlRefsL_dynSets els pre k, ctlRefsL_dynSetsL els pre ks]; rfl
+end
+
 mutual
 theorem bodyNodes_refs (els : List Refs.Chain) : ∀ (pre : List Str) (d : DItem), ctlOk d = true →
     ctlRefsL (bodyNodes els pre d) = (bodyPaths pre (Convert.erase d)).map xpathStr
@@ -951,17 +1017,18 @@ theorem bodyNodes_refs (els : List Refs.Chain) : ∀ (pre : List Str) (d : DItem
       rfl
   | pre, .sec .rep n b p ks, h => by
     simp only [ctlOk, Bool.and_eq_true] at h
-    have hcl : cleanAttrs p.attrs = true := h.1
-    obtain ⟨e1, e2⟩ := head_attrs (l!"nodeset") (l!"ref") (xpathStr (pre ++ [n])) p.attrs
-      (clean_nodeset hcl) (clean_ref hcl) (by decide)
+    have hcl : cleanAttrs (Convert.subAttrs els (ctxOf els (pre ++ [n])) p.attrs) = true := by
+      rw [cleanAttrs_subAttrs]; exact h.1
+    obtain ⟨e1, e2⟩ := head_attrs (l!"nodeset") (l!"ref") (xpathStr (pre ++ [n]))
+      (Convert.subAttrs els (ctxOf els (pre ++ [n])) p.attrs) (clean_nodeset hcl) (clean_ref hcl) (by decide)
     obtain ⟨g1, g2⟩ := head_attrs (l!"ref") (l!"nodeset") (xpathStr (pre ++ [n])) [] rfl rfl (by decide)
     have hg : controlTags.contains (l!"group") = true := by decide
     have hr : controlTags.contains (l!"repeat") = true := by decide
     simp only [bodyNodes, Convert.erase, bodyPaths, ctlRefsL_single, pyNode, List.map]
     rw [ctlRefs_ctl _ _ _ hg, g1, g2]
     simp only [ctlRefsL, ctlRefs_labelNode, List.nil_append, List.append_nil]
-    rw [ctlRefs_ctl _ _ _ hr, e1, e2, bodyNodesL_refs els (pre ++ [n]) ks h.2]
-    rfl
+    rw [ctlRefs_ctl _ _ _ hr, e1, e2, ctlRefsL_append, bodyNodesL_refs els (pre ++ [n]) ks h.2, ctlRefsL_dynSetsL]
+    simp
   | pre, .sec .group n b p ks, h => by
     simp only [ctlOk, Bool.and_eq_true] at h
     obtain ⟨e1, e2⟩ := last_attrs (xpathStr (pre ++ [n])) p.attrs h.1
